@@ -118,6 +118,7 @@ type usagePair struct {
 func (panel *userPanel) updateUsageQueue() {
 	// lock order: usageUpdateQueueM before activeUsersM, the same as commitUpdate
 	panel.usageUpdateQueueM.Lock()
+	vhook("updateUsageQueue.firstLock")
 	panel.activeUsersM.Lock()
 	for _, user := range panel.activeUsers {
 		if user.bypass {
